@@ -14,4 +14,5 @@ def rules(ctx, tier):
         lambda: search.rule_unfoldall(ctx),
         lambda: mutation.rule_mut(ctx),
         lambda: search.rule_finderroute(ctx),
+        lambda: search.rule_narrow(ctx),
     ]
